@@ -96,10 +96,10 @@ def retype(lines, typ, shift, rng=None):
         elif t[0] == "p":
             out.append("p %s" % f(t[1]))
             twin([f(t[1])])
-        elif t[0] == "qm":
-            out.append("qm %s %s %s" % (t[1], f(t[2]), f(t[3])))
-        elif t[0] == "pm":
-            out.append("pm %s %s" % (t[1], f(t[2])))
+        elif t[0] in ("qm", "qn"):
+            out.append("%s %s %s %s" % (t[0], t[1], f(t[2]), f(t[3])))
+        elif t[0] in ("pm", "pn"):
+            out.append("%s %s %s" % (t[0], t[1], f(t[2])))
         elif t[0] == "w":
             out.append("w %s %s" % (t[1], f(t[2])))
         else:
@@ -211,6 +211,8 @@ def _query(rng, st, U, lines):
         lines.append("p %d" % x)
         if rng.random() < 0.35:
             lines.append("pm %s %d" % (rng.choice(MODES), x))
+        if len(st.iv) <= 64 and rng.random() < 0.3:
+            lines.append("pn %s %d" % (rng.choice(["pt", "rg"]), x))
         return
     elif kind == "inverted":                    # lb > ub: outside the property, correspondence only
         ub = rng.randrange(0, U); lb = ub + 1 + rng.randrange(0, max(1, U // 2))
@@ -221,6 +223,8 @@ def _query(rng, st, U, lines):
     lines.append("q %d %d" % (lb, ub))
     if lb <= ub and rng.random() < 0.35:
         lines.append("qm %s %d %d" % (rng.choice(MODES), lb, ub))
+    if lb <= ub and len(st.iv) <= 64 and rng.random() < 0.3:
+        lines.append("qn %s %d %d" % (rng.choice(["pt", "rg"]), lb, ub))     # nested: inner query from inside the callback
 
 
 def _interval(rng, st, U, style):
@@ -468,6 +472,13 @@ def corpus():
         for typ in ("i64", "i32", "f64"):
             for shift in (100, 4):
                 cs.append(("%s-%s-%d" % (name.replace("corpus-", "corpus-%s-" % typ), "s", shift), retype(ls, typ, shift)))
+    # seeded change C07-r7-2 (query bounds kept in members of the tree, read by reference during the walk: not re-entrant):
+    # the callback of the outer query [0,9] runs an inner point / range query, after which the outer walk continues with the inner bounds
+    NQ = ["qn %s %d %d" % (m, lb, ub) for m in ("pt", "rg") for lb in range(9) for ub in range(lb, 9)] + ["pn %s %d" % (m, x) for m in ("pt", "rg") for x in range(9)]
+    cs.append(("corpus-nested", ["cfg 8 full 1", "i 3 4 0", "i 1 6 1", "i 0 7 2", "i 4 4 3", "i 4 5 4", "i 5 7 5", "i 2 2 6", "i 3 4 7", "q 0 9", "qn pt 0 9", "qn rg 0 9",
+                                 "pn pt 4", "pn rg 4"] + NQ + ["r 2", "r 5"] + NQ))
+    cs.append(("corpus-nested-f64", retype(["cfg 6 full 1", "i 4 6 0", "i 2 3 1", "i 7 9 2", "i 0 1 3", "i 5 8 4", "qn pt 0 9", "qn rg 0 9", "qn pt 3 4", "pn rg 5", "qn rg 2 7"], "f64", 4)))
+    cs.append(("corpus-nested-i32", retype(["cfg 6 full 1", "i 4 6 0", "i 2 3 1", "i 7 9 2", "i 0 1 3", "i 5 8 4", "qn pt 0 9", "qn rg 0 9", "qn pt 3 4", "pn rg 5", "qn rg 2 7"], "i32", 100)))
     # seeded change C07-r6-2 (bounds taken as const P & alias the caller's variables): coalescing callback widens the bounds
     # during the traversal and [7,9] / [0,1] are reported for the query [3,4]; cursor advance in the point query
     cs.append(("corpus-qmut", ["cfg 6 full 1", "i 4 6 0", "i 2 3 1", "i 7 9 2", "i 0 1 3", "i 5 8 4", "q 3 4", "qm co 3 4", "qm cu 3 4", "qm ga 3 4",
